@@ -350,7 +350,8 @@ def gen_harness(items, prefix):
             elif op["op"] == "child":
                 # <module>NewChild through the instance's own common.newChild pointer, as wasi thread-spawn calls it;
                 # the resolver answers as it did for the parent
-                b = inst_binds[op["inst"] - 1]
+                # (or with other objects, when the operation carries bindings of its own)
+                b = op.get("binds") or inst_binds[op["inst"] - 1]
                 o.append("  %s_bmem = %d; %s_btab = %d;" % (mod, b["mem"], mod, b["table"]))
                 for j, a in enumerate(b["globals"]):
                     o.append("  %s_bglob[%d] = %d;" % (mod, j, a))
